@@ -152,6 +152,57 @@ pub fn impl_serde(files: &Files) -> Json {
     }
 }
 
+/// (offset, line, column) of every character boundary of the text, from the same crate the
+/// library uses (grapheme clusters)
+pub fn lc_table(text: &str) -> Json {
+    let lookup = line_col::LineColLookup::new(text);
+    let mut offs: Vec<usize> = text.char_indices().map(|(i, _)| i).collect();
+    offs.push(text.len());
+    Json::Arr(
+        offs.into_iter()
+            .map(|o| {
+                let lc = lookup.get_by_cluster(o);
+                Json::Arr(vec![Json::n(o), Json::n(lc.0), Json::n(lc.1)])
+            })
+            .collect(),
+    )
+}
+
+/// the syntax stage alone: what `add_content` stores for each text
+pub fn parse_case(files: &Files, extra: Vec<(&'static str, Json)>) -> Vec<(&'static str, Json)> {
+    let r = catch_unwind(AssertUnwindSafe(|| {
+        let mut p: Parser<String> = Parser::new();
+        for (id, text) in files {
+            p.add_content(id.clone(), text);
+        }
+        let out = p.validate();
+        let mut tags_ok = out.len() == p.verif_parse_results().len();
+        for (k, v) in out.iter() {
+            if *k != v.id {
+                tags_ok = false;
+            }
+        }
+        Json::obj(vec![
+            ("outcome", Json::s("ok")),
+            ("stage1", dump::results(p.verif_parse_results())),
+            ("out", dump::results(&out)),
+            ("tags_ok", Json::Bool(tags_ok)),
+        ])
+    }));
+    let imp = match r {
+        Ok(j) => j,
+        Err(e) => Json::obj(vec![("outcome", Json::s("panic")), ("msg", Json::s(panic_msg(e)))]),
+    };
+    let mut v = vec![
+        ("op", Json::s("parse")),
+        ("files", files_json(files)),
+        ("lc", Json::Arr(files.iter().map(|(id, t)| Json::Arr(vec![Json::s(id.clone()), lc_table(t)])).collect())),
+        ("impl", imp),
+    ];
+    v.extend(extra);
+    v
+}
+
 pub fn validate_case(files: &Files) -> Vec<(&'static str, Json)> {
     vec![("op", Json::s("validate")), ("files", files_json(files)), ("impl", impl_validate(files))]
 }
@@ -678,6 +729,84 @@ pub fn run(suite: &str, thorough: bool, seed: u64, shard: usize, nshards: usize,
                 em.case(0, vec![("op", Json::s("serde")), ("files", files_json(&files)), ("impl", impl_serde(&files))]);
             }
         }
+        // parse-level correspondence: generated documents in all layouts
+        "parse" => {
+            let n = share(if thorough { 20000 } else { 300 });
+            for i in 0..n {
+                let s = rng.next();
+                let mut r = Rng::new(s);
+                let cfg = gen::DocCfg::default();
+                let d = gen::gen_document(&mut r, &cfg);
+                let rd = doc::render(&d);
+                let style = match i % 4 {
+                    0 => LayoutStyle::Plain,
+                    1 => LayoutStyle::Tight,
+                    _ => LayoutStyle::Wild,
+                };
+                let text = doc::layout(&rd.toks, style, &mut r).text;
+                em.case(s, parse_case(&vec![("f".to_owned(), text)], vec![("expect_sx", Json::s(doc::sx_doc(&d)))]));
+            }
+        }
+        // malformed inputs: token mutations of well-formed documents, token soups, character soups,
+        // unterminated strings / comments, multi-byte injection
+        "mutate" => {
+            let vocab: Vec<&str> = vec![
+                "package", "import", "interface", "parcelable", "enum", "oneway", "const", "in", "out", "inout", "void",
+                "int", "String", "CharSequence", "List", "Map", "true", "false", "class", "static", "double", "do",
+                ";", ",", "{", "}", "(", ")", "[", "]", "<", ">", "=", ".", "-", "@Ann", "foo", "Bar", "x1", "12", "007",
+                "1.5", "-3", "+.5f", "\"s\"", "\"unterminated", "/* open", "// line", "é", "日本", "\u{3000}", "#", "$", "\\",
+                "/**/", "/***/", "/** doc */", "*/", "/", "*", "99999999999", "4294967295", "4294967296",
+            ];
+            let n = share(if thorough { 40000 } else { 600 });
+            for i in 0..n {
+                let sd = rng.next();
+                let mut r = Rng::new(sd);
+                let cfg = gen::DocCfg { max_members: 4, ..Default::default() };
+                let text = match i % 5 {
+                    0..=2 => {
+                        // 1-3 token mutations
+                        let d = gen::gen_document(&mut r, &cfg);
+                        let mut toks = doc::render(&d).toks;
+                        for _ in 0..r.range(1, 3) {
+                            if toks.is_empty() {
+                                break;
+                            }
+                            let k = r.below(toks.len());
+                            match r.below(4) {
+                                0 => {
+                                    toks.remove(k);
+                                }
+                                1 => toks[k].text = (*r.pick(&vocab)).to_owned(),
+                                2 => toks.insert(k, doc::Tok { text: (*r.pick(&vocab)).to_owned(), pre_comment: None }),
+                                _ => {
+                                    let j = r.below(toks.len());
+                                    toks.swap(k, j);
+                                }
+                            }
+                        }
+                        let style = if r.chance(1, 2) { LayoutStyle::Plain } else { LayoutStyle::Wild };
+                        doc::layout(&toks, style, &mut r).text
+                    }
+                    3 => {
+                        // token soup
+                        let len = r.range(0, 40);
+                        let mut t = String::new();
+                        for _ in 0..len {
+                            t.push_str(*r.pick(&vocab));
+                            t.push_str(*r.pick(&[" ", "", "\n", " ", "\t", "\r\n"]));
+                        }
+                        t
+                    }
+                    _ => {
+                        // character soup
+                        let len = r.range(0, 60);
+                        let alphabet: Vec<char> = "ab_Z09 \t\n\r;,{}()[]<>=.-+@\"/*#é日🎉\u{3000}\u{85}\u{301}f".chars().collect();
+                        (0..len).map(|_| *r.pick(&alphabet)).collect()
+                    }
+                };
+                em.case(sd, parse_case(&vec![("f".to_owned(), text)], vec![]));
+            }
+        }
         _ => {
             eprintln!("unknown suite {}", suite);
             std::process::exit(2);
@@ -705,6 +834,15 @@ pub fn rerun(line: &str) -> Option<String> {
         "walk" => {
             let wp = matches!(j.get("positions"), Some(Json::Bool(true)));
             v.append(&mut walk_case(&files, wp))
+        }
+        "parse" => {
+            let mut extra = Vec::new();
+            for k in ["expect_sx", "garbage", "expect_tokens", "docs"] {
+                if let Some(x) = j.get(k) {
+                    extra.push((match k { "expect_sx" => "expect_sx", "garbage" => "garbage", "expect_tokens" => "expect_tokens", _ => "docs" }, x.clone()));
+                }
+            }
+            v.append(&mut parse_case(&files, extra))
         }
         "serde" => v.append(&mut vec![("op", Json::s("serde")), ("files", files_json(&files)), ("impl", impl_serde(&files))]),
         "determinism" => v.append(&mut crate::store_ops::determinism_case(&files, &mut Rng::new(1))),
